@@ -67,7 +67,7 @@ def hygiene():
 
 class _Lock:
     def __enter__(self):
-        self.f = open(os.path.join(env.VERIF, ".build.lock"), "w")
+        self.f = open(env.LOCK, "w")
         fcntl.flock(self.f, fcntl.LOCK_EX)
         return self
 
